@@ -8,6 +8,7 @@ package fs
 
 import (
 	iofs "io/fs"
+	"syscall"
 
 	"github.com/xakep666/ps3netsrv-go/internal/verifrt"
 	"github.com/xakep666/ps3netsrv-go/internal/verifstub"
@@ -551,6 +552,52 @@ func VerifC18_Rebuild() {
 		same = same && a.fsBuf[k] == b.fsBuf[k]
 	}
 	verifrt.Assert(same, "rebuild.same-bytes")
+}
+
+// C18 (fault at a particular point): a construction during which ONE file-system call fails - with a plain I/O
+// error or with an errno that code may treat as transient (EINTR, EAGAIN, ESTALE) - is either refused, leaving
+// nothing open, or yields exactly the layout of the undisturbed construction of the same tree. Which call fails
+// is a solver variable (every Open/Stat of the scan may be the one).
+func VerifC18_TransientFault() {
+	verifrt.NativeUnsupported("time.Now and crypto/rand are the engine's symbolic environment")
+	shape := verifrt.Choice("shape", verifrt.Bound("C18.fault.shapes", 2, 3))
+	a, _, fsys, ps3 := verifBuild(shape)
+	if a == nil {
+		return
+	}
+	errs := []error{verifstub.ErrIO, syscall.EINTR, syscall.EAGAIN, syscall.ESTALE}
+	faulty := &verifstub.Fs{L: &verifstub.Ledger{}, Entries: fsys.Entries, Faults: true, FaultBudget: 1,
+		FaultErr: errs[verifrt.Choice("errno", verifrt.Bound("C18.fault.errnos", 2, 4))]}
+	b, err := NewVirtualISO(faulty, "/d", ps3)
+	if err != nil {
+		verifrt.Assert(b == nil, "fault.refused-returns-no-image")
+		verifrt.Assert(faulty.L.Opened == faulty.L.Closed, "fault.refused-leaves-nothing-open")
+		return
+	}
+	verifrt.Assert(b != nil, "fault.image-or-error")
+	if b == nil {
+		return
+	}
+	verifrt.Assert(a.totalSize == b.totalSize && a.padAreaStart == b.padAreaStart && a.padAreaSize == b.padAreaSize, "fault.same-size")
+	verifrt.Assert(len(a.fsBuf) == len(b.fsBuf) && len(a.files) == len(b.files), "fault.same-lengths")
+	if len(a.fsBuf) != len(b.fsBuf) || len(a.files) != len(b.files) {
+		return
+	}
+	for i := range a.files {
+		verifrt.Assert(a.files[i].path == b.files[i].path && a.files[i].size == b.files[i].size && a.files[i].rLBA == b.files[i].rLBA, "fault.same-read-list")
+	}
+	same := true
+	for k := range a.fsBuf {
+		sec, off := k/2048, k%2048
+		if (sec == 16 || sec == 17) && off >= 813 && off < 881 {
+			continue
+		}
+		if ps3 && sec == 1 && off >= 64 {
+			continue
+		}
+		same = same && a.fsBuf[k] == b.fsBuf[k]
+	}
+	verifrt.Assert(same, "fault.same-bytes")
 }
 
 var _ iofs.FileInfo
